@@ -3,6 +3,7 @@ package kit
 import (
 	"encoding/json"
 	"fmt"
+	"os"
 	"sync"
 
 	"github.com/jsightapi/jsight-schema-core/fs"
@@ -38,6 +39,10 @@ func readPanicFree(filename string) (f *fs.File, err error) {
 		}
 	}()
 	verifFileAccess("read-root", filename)
+	if info, serr := os.Stat(filename); serr == nil && !info.IsDir() && !info.Mode().IsRegular() {
+		// A named pipe would be waited for forever, a device read without end.
+		return nil, fmt.Errorf("%q is not a regular file", filename)
+	}
 	f = reader.Read(filename)
 	return f, err
 }
